@@ -213,7 +213,7 @@ def c03_scenario(kind="new type", fmt="stream"):
     D = _descs()
     a, a2, b = D["A"](n=1), D["A2"](s="x"), D["B"](s="b")
     pre = {"new type": [], "known type": [a], "same name registered": [a2], "nested, nothing known": [], "nested, holder known": [D["N"](r=None, rs=[])], "nested, inner known": [a, b],
-           "grouped, nothing known": [], "grouped, one member known": [a], "grouped, same names registered": [a, D["B"].__class__("c03/b", [("varint", "zz")])(zz=1)], "grouped twice, other members": [GroupedRecord("c03/grp", [D["G1"](n=1), b])], "same hash text, other name": [], "two writers": [], "frame": [], "write refused while packing, caller carries on": [], "names that differ only in '/' and '_'": [], "declared with byte strings": [], "a record type without fields": [], "grouped records of different shapes, flattened": []}[kind]
+           "grouped, nothing known": [], "grouped, one member known": [a], "grouped, same names registered": [a, D["B"].__class__("c03/b", [("varint", "zz")])(zz=1)], "grouped twice, other members": [GroupedRecord("c03/grp", [D["G1"](n=1), b])], "same hash text, other name": [], "two writers": [], "frame": [], "write refused while packing, caller carries on": [], "names that differ only in '/' and '_'": [], "declared with byte strings": [], "a record type without fields": [], "grouped records of different shapes, flattened": [], "one holder with two same-name types, read back": [], "grouped record of two same-name types, read back": []}[kind]
     if kind.startswith("nested"):
         rec = D["N"](r=a, rs=[a2, b])
     elif kind == "grouped twice, other members":
@@ -280,6 +280,16 @@ def c03_scenario(kind="new type", fmt="stream"):
             bad = _check_file(fmt, w.data(), w.written)
         except Exception as e:
             bad = f"after a refused write, reading back raised {type(e).__name__}: {e}"
+        return {"violates": bool(bad), "detail": bad}
+    if kind in ("one holder with two same-name types, read back", "grouped record of two same-name types, read back"):
+        rec = D["N"](r=a, rs=[a2, a]) if kind.startswith("one holder") else GroupedRecord("c03/grp", [a, a2])
+        w = _Writer(fmt)
+        try:
+            w.write(rec)
+            w.write(b)
+            bad = _check_file(fmt, w.data(), w.written)
+        except Exception as e:
+            bad = f"writing / reading back raised {type(e).__name__}: {e}"
         return {"violates": bool(bad), "detail": bad}
     if kind in ("a record type without fields", "grouped records of different shapes, flattened"):
         from flow.record import RecordDescriptor
